@@ -11,6 +11,7 @@ import OPModel.Drive.C02
 import OPModel.Drive.C16
 import OPModel.Drive.C17
 import OPModel.Drive.C10
+import OPModel.Drive.C11
 
 open OP
 
@@ -30,6 +31,7 @@ def handle (line : String) : String :=
   | "clean" :: args => Drive.clean args
   | "rdp" :: args => Drive.rdpOp args
   | "zones" :: args => Drive.zonesOp args
+  | "graphsets" :: args => Drive.graphsets args
   | "pinch" :: args => Drive.pinch args
   | "pincht" :: args => Drive.pincht args
   | _ => "bad-op"
